@@ -116,6 +116,7 @@ package vm
 // Go's own container operations as reflect performs them: v[i:j:k] (shares storage, capacity k-i), cap(v), structural equality
 //@ spec fun rvSlice3(v reflect.Value, i int, j int, k int) reflect.Value
 //@ spec fun rvCap(v reflect.Value) int
+//@ spec fun rvSlice2(v reflect.Value, i int, j int) reflect.Value
 //@ spec fun deepEqS(x any, y any) bool
 // rvAppendSlice(s, t): Go's append(s, t...) as reflect.AppendSlice performs it (sharing and growth rules included)
 //@ spec fun rvAppendSlice(s reflect.Value, t reflect.Value) reflect.Value
